@@ -207,6 +207,20 @@ struct BitField {
 struct Lambdaish {
     int operator()() { return 0; }
 };
+// copying from a non-const lvalue is noexcept, copying from a const one may throw: tells X<T&, T&> from X<T&, T const&>
+// and X<T, T&> from X<T, T const&> (mutants/C15/nothrow_copy_assignable_drops_const)
+struct CopyNonConstNothrow {
+    CopyNonConstNothrow() = default;
+    CopyNonConstNothrow(CopyNonConstNothrow&) noexcept;
+    CopyNonConstNothrow(CopyNonConstNothrow const&) noexcept(false);
+    CopyNonConstNothrow& operator=(CopyNonConstNothrow&) noexcept;
+    CopyNonConstNothrow& operator=(CopyNonConstNothrow const&) noexcept(false);
+};
+// move construction is noexcept, move assignment may throw, copies are deleted
+struct MoveCtorOnlyNothrowAssignThrows {
+    MoveCtorOnlyNothrowAssignThrows(MoveCtorOnlyNothrowAssignThrows&&) noexcept;
+    MoveCtorOnlyNothrowAssignThrows& operator=(MoveCtorOnlyNothrowAssignThrows&&) noexcept(false);
+};
 
 // ------------------------------------------------------------------ compositional spelling of the zoo types
 template <typename T> using C1 = T const;
